@@ -11,6 +11,7 @@ import (
 	"sort"
 	"strconv"
 	"strings"
+	"sync"
 )
 
 func nproc() int {
@@ -35,6 +36,15 @@ func printable(b []byte) string { return clip(strconv.QuoteToASCII(string(b)), 4
 // runOracle evaluates tasks in workers and folds the outcomes into r.  Hangs are re-confirmed
 // alone before they count.
 func runOracle(r *Result, tasks []Task) []taskResult {
+	if opts.Only != "" {
+		var keep []Task
+		for _, t := range tasks {
+			if t.Tag == opts.Only {
+				keep = append(keep, t)
+			}
+		}
+		tasks = keep
+	}
 	res := runTasks(tasks, nproc())
 	// re-run hangs/crashes alone (a loaded machine must not produce an alarm)
 	var redo []int
@@ -43,9 +53,28 @@ func runOracle(r *Result, tasks []Task) []taskResult {
 			redo = append(redo, i)
 		}
 	}
-	for _, i := range redo {
-		one := runTasks([]Task{tasks[i]}, 1)
-		res[i] = one[0]
+	if len(redo) > 0 {
+		// solo = one process per input, a quarter of the cores so that timing is not disturbed;
+		// beyond 300 candidates only the first 300 are re-confirmed, the rest are dropped (not reported)
+		if len(redo) > 300 {
+			for _, i := range redo[300:] {
+				res[i] = taskResult{Kind: "done", Out: Outcome{Reject: "unconfirmed-hang-candidate"}}
+			}
+			redo = redo[:300]
+		}
+		sem := make(chan bool, 4)
+		var wg sync.WaitGroup
+		for _, i := range redo {
+			wg.Add(1)
+			sem <- true
+			go func(i int) {
+				defer wg.Done()
+				one := runTasks([]Task{tasks[i]}, 1)
+				res[i] = one[0]
+				<-sem
+			}(i)
+		}
+		wg.Wait()
 	}
 	seen := map[string]bool{}
 	tags := map[string]int{}
